@@ -671,7 +671,7 @@ func c18XMLCase(t *XT, id int, sum *Summary, cw *CaseWriter) {
 	if anyMarkup(keys) && anyMarkup(texts) {
 		sum.Nontriv(string(out))
 	}
-	human["signature"] = "xml:" + specialClasses(append(append([]string{}, keys...), texts...))
+	human["signature"] = "xml:spec"
 	sum.Sample(human)
 
 	// a standard parser on the exported bytes
@@ -685,7 +685,7 @@ func c18XMLCase(t *XT, id int, sum *Summary, cw *CaseWriter) {
 	exp := t.expectXML()
 	expS, _ := json.Marshal(exp)
 	if perr != nil {
-		viol("encoding/xml rejects the exported document: "+perr.Error(), "xml:not-well-formed:"+specialClasses(keys)+"/"+specialClasses(texts), string(expS), string(out))
+		viol("encoding/xml rejects the exported document: "+perr.Error(), "xml:not-well-formed", string(expS), string(out))
 		return
 	}
 	if len(forest) != 1 || forest[0].IsText {
@@ -957,7 +957,7 @@ func c18HTMLCase(hc *htmlCase, id int, sum *Summary, cw *CaseWriter) {
 			sum.Count("rune_classes", c18RuneClass(c))
 		}
 	}
-	human["signature"] = "html:" + specialClasses(strs)
+	human["signature"] = "html:spec"
 	custom := customFor(hc.Custom)
 	real := runToHtml(t.Build(), hc.MaxList, custom, hc.Inline)
 	human["exported"] = real.Res
@@ -996,7 +996,7 @@ func c18HTMLCase(hc *htmlCase, id int, sum *Summary, cw *CaseWriter) {
 	rawAttrWS := hc.Custom == "raw"
 	cw.Add(fmt.Sprintf("KHtml %d %s %s %s (%s)", id, hc.coqModelInput(), CoqBool(rawAttrWS), CoqBytesAsRunes([]byte(real.Res)), goForest))
 	if perr != nil {
-		viol("encoding/xml rejects the markup ToHtml produced: "+perr.Error(), "not-well-formed:"+specialClasses(strs), "well-formed markup", real.Res)
+		viol("encoding/xml rejects the markup ToHtml produced: "+perr.Error(), "not-well-formed", "well-formed markup", real.Res)
 		return
 	}
 	if hc.Custom == "raw" {
